@@ -13,7 +13,8 @@ CONSTANTS NNodes,      \* nodes are 1..NNodes, 0 is NULL
           MaxOps       \* bound on history length (state constraint only)
 
 Nodes == 1..NNodes
-Key == <<1, 2, 2, 3, 1, 3, 2, 1>>   \* sort key of node n (with ties); list_drv.c has the same table
+KeyTab == <<50000, 100000, 100000, 150000, 50000, 150000, 100000, 50000>>   \* list_drv.c has the same table: ties, and differences that do not fit 16 bits
+Key == [n \in 1..NNodes |-> KeyTab[((n - 1) % 8) + 1]]                     \* sort key of node n
 Lists == 1..NLists
 Nil == 0
 Pseudo(l) == 0 - l      \* the "node" whose next field is list l's head
